@@ -7,6 +7,7 @@ INVARIANT NoPanicInv
 INVARIANT WellFormedInv
 INVARIANT ErrInsideInv
 INVARIANT LexOrderInv
+INVARIANT ClosedInv
 INVARIANT StackBounded
 ACTION_CONSTRAINT Emit
 CHECK_DEADLOCK FALSE
